@@ -65,3 +65,13 @@ package rsyncd
 //@   ensures [first-match] len(acls) > 0 && addrOK(remoteAddr) ==> (err == nil <==> aclDecision(acls, ipIdOf(hostOf(remoteAddr))))
 //@   loop 0: invariant [earlier-rules-skipped] forall k :: 0 <= k && k <= rangeindex ==> aclSkips(acls[k], ipIdOf(hostOf(remoteAddr)))
 //@   loop 0: invariant addrOK(remoteAddr) && -1 <= rangeindex
+
+//@ func (*rsyncd.Server).getModule
+//@   pure
+//@   ensures [found-by-name] err == nil ==> result.Name == requestedModule
+
+// Module data is only ever served (handleConn) after the ACL of the
+// requested module granted access to this connection's address.
+//@ func (*rsyncd.Server).HandleDaemonConn
+//@   at[C19] (*rsyncd.Server).handleConn: assert [acl-checked] aclAllows(module.ACL, conn.name)
+//@   at[C19] (*rsyncd.Server).handleConn: assert [requested-module] module.Name == requestedModule
